@@ -257,7 +257,10 @@ pub fn pwb(bytes: &[u8]) -> Diff {
             match PwbPacket::try_from(bytes) {
                 Err(e) => return bad("pwb-enum-disagrees", format!("PwbPacket rejects ({e}) what PwbV2Packet accepts")),
                 Ok(e) => {
+                    let same_enums = matches!((e.compression(), p.compression()), (padwing::Compression::Raw, padwing::Compression::Raw))
+                        && std::mem::discriminant(&e.trigger_source()) == std::mem::discriminant(&p.trigger_source());
                     let mut ok = e.is_v2()
+                        && same_enums
                         && e.packet_version() == 2
                         && e.after_id() == p.after_id()
                         && e.board_id() == p.board_id()
